@@ -77,6 +77,14 @@ def make_cases(rng, tier):
         c["reinject"], c["inject2"] = True, [inj_ptr("Total", tv)]
         cases.append(c)
         cid += 1
+    # ... and the other way round: executed first WITH a name injected, then again after the host has WITHDRAWN it (DataContext.Del, with an
+    # empty first key, as the pool's two-object wrapper calls it): the name is an undefined local again — the reader fails, the writer binds
+    for tv, mk in ((tv_int("i64", 100), inj_ptr), (tv_int("i64", 100), inj_val)):
+        c = make_multi_case(cid, [("peek", None, 9, block([assign(("var", "seen"), "=", ("math", mk_mbin("+", mvar("acc"), mint(1))))], ret(emath(mvar("seen"))))),
+                                  ("count", None, 5, block([assign(("var", "acc"), "=", ("math", mint(5)))], ret(emath(mvar("acc")))))], [mk("acc", tv)])
+        c["reinject"], c["inject2"], c["withdraw"] = True, [inj_val("other", tv_int("i64", 1))], ["acc"]
+        cases.append(c)
+        cid += 1
     # OVERLAPPING executions (concurrent model, rule A held at a gate between the write and the read of its local): rule B binds
     # the same local name meanwhile — from a struct field, a nested field, a slice element (addressable sources), a constant
     gate = lambda: scall(call("func", "Gate", [("const", kstr("gate"))]))
